@@ -20,10 +20,27 @@ use vcore::sqlite::{Db, SqlVal};
 
 const MARK: &str = "MARKERxq";
 
-pub const ALPHA: [char; 12] = ['"', '`', '\'', '\\', ' ', ';', '-', '.', '[', ']', 'a', 'é'];
+pub const ALPHA: [char; 13] = ['"', '`', '\'', '\\', ' ', ';', '-', '.', '[', ']', 'a', 'é', '*'];
 
-fn a(s: &str) -> Alias {
-    Alias::new(s)
+/// An identifier type of the user's own: its `unquoted` hands the name over character by character
+/// (`write_char`), where `Alias` hands it over in one piece.
+#[derive(Debug)]
+struct CharWise(String);
+impl Iden for CharWise {
+    fn unquoted(&self, s: &mut dyn std::fmt::Write) {
+        for c in self.0.chars() {
+            s.write_char(c).unwrap();
+        }
+    }
+}
+
+/// the name as an identifier: mostly an `Alias`, now and then the user-written identifier type
+fn a(s: &str) -> DynIden {
+    if crate::apply::route(5) == 0 {
+        SeaRc::new(CharWise(s.to_string()))
+    } else {
+        Alias::new(s).into_iden()
+    }
 }
 
 fn q_sel(d: Dialect, s: &mut SelectStatement) -> String {
@@ -738,7 +755,7 @@ pub fn check(ctx: &Ctx, rep: &mut Report) {
     }
     if ctx.shard == 0 && ctx.replay.is_none() {
         rep.exhaustive_parts.push(format!(
-            "all non-empty strings over the 12-symbol identifier alphabet up to length {max_len} ({}) x {} identifier positions x 3 backends",
+            "all non-empty strings over the 13-symbol identifier alphabet up to length {max_len} ({}) x {} identifier positions x 3 backends",
             total - 1,
             POSITIONS.len()
         ));
